@@ -26,6 +26,7 @@ static mut G_CALLED_AFTER_END: bool = false;
 static mut G_EMPTY_SLICE: bool = false;
 static mut G_OVERLONG: bool = false; // source misbehaves: returns n > slice length (C14 only)
 static mut G_ALLOW_OVERLONG: bool = false;
+static mut G_FAILED: bool = false; // the source returned a terminal error during this operation
 
 struct Src;
 
@@ -47,7 +48,17 @@ impl Read for Src {
             }
             if choice == 1 {
                 G_ENDED = true;
-                return Err(io::Error::from(io::ErrorKind::Other));
+                G_FAILED = true;
+                // any non-Interrupted kind is a terminal failure
+                let kind = match kani::any::<u8>() % 6 {
+                    0 => io::ErrorKind::Other,
+                    1 => io::ErrorKind::UnexpectedEof,
+                    2 => io::ErrorKind::BrokenPipe,
+                    3 => io::ErrorKind::WouldBlock,
+                    4 => io::ErrorKind::TimedOut,
+                    _ => io::ErrorKind::InvalidData,
+                };
+                return Err(io::Error::from(kind));
             }
             if G_ALLOW_OVERLONG && choice == 2 {
                 // contract violation of Read: claims more bytes than the slice holds
@@ -129,6 +140,7 @@ pub fn any_reader() -> (DeferredReader<'static>, Pre) {
         G_EMPTY_SLICE = false;
         G_OVERLONG = false;
         G_ALLOW_OVERLONG = false;
+        G_FAILED = false;
     }
     let r = DeferredReader {
         read: Box::new(Src),
@@ -217,6 +229,9 @@ pub fn step_request_more() {
             assert!((r.valid_len > pre.valid_len) == (G_OK_READS == 1));
             assert!(!pre.has_err || r.io_error.is_some());
             assert!(pre.has_err || !r.io_error.is_some() || G_ENDED);
+            // C04: a terminal failure of the source (of any kind) is parked, never mistaken for EOF
+            assert!(!G_FAILED || r.io_error.is_some());
+            assert!(pre.has_err || r.io_error.is_some() == G_FAILED);
             // C10: buffer growth is bounded by the window plus chunks, independent of history
             let need = r.pos_in_buf + pre.valid_len + pre.chunk;
             assert!(r.buf.len() <= core::cmp::max(pre.buf_len, need));
